@@ -128,7 +128,8 @@ static int components(const Mat &A) {
   return nc;
 }
 static bool diag_has_ties(const Mat &A) {
-  std::vector<double> d(A.diagonal().data(), A.diagonal().data() + A.rows());
+  std::vector<double> d(static_cast<size_t>(A.rows()));
+  for (Index i = 0; i < A.rows(); ++i) d[size_t(i)] = A(i, i);
   std::sort(d.begin(), d.end());
   for (size_t i = 0; i + 1 < d.size(); ++i)
     if (d[i] == d[i + 1]) return true;
@@ -515,6 +516,7 @@ static void check_symm(Result &r, const json &c, const Mat &A, const Run &R, boo
   if (restart_certain) r.cls("restart-certain");
   if (max_cols(opt, k, n) > n) r.cls("basis-may-outgrow-n");
   r.nontrivial = restart_certain || cluster || degenerate;
+  if (must_succeed) r.nontrivial = restart_certain || R.iters >= 3;  // F2 has no clusters by construction
   r.cls(std::string("opt:") + opt.at("corr").get<std::string>() + "/" + opt.at("upd").get<std::string>());
   r.cls(std::string("tol:") + opt.at("tol").get<std::string>());
   if (opt.value("mf", false)) r.cls("matrix-free");
@@ -925,6 +927,7 @@ static json gen_f4() {
   c["diag"] = d;
   c["trip"] = trip;
   c["opt"] = gen_opt(false, k, n, 30, 100);
+  if (known(K_OLSEN)) c["opt"]["corr"] = "DPR";  // the structure must stay reducible, so no dense coupling can be added here
   apply_known(c, true);  // stays reducible; with the finding known the case carries "tolerate" and the search continues
   return c;
 }
@@ -1090,7 +1093,7 @@ static Result run_ham(const json &c) {
   double tol = tol_of(opt.at("tol"));
   r.cls(std::string("opt:") + opt.at("corr").get<std::string>() + "/" + opt.at("upd").get<std::string>());
   r.cls(std::string("tol:") + opt.at("tol").get<std::string>());
-  r.cls(fmt("dom:%.2f", c.at("dom").get<double>()));
+  r.cls(c.contains("offabs") ? "ham:strict(separated diagonal, couplings<=0.05)" : fmt("ham:general dom=%.2f", c.at("dom").get<double>()));
   if (opt.value("mf", false)) r.cls("matrix-free");
   if (c.value("repaired", false)) r.cls("excluded-known:uncoupled-olsen-start(repaired)");
   Run R = run_solver(H, k, opt, true);
